@@ -1244,8 +1244,19 @@ class TransactionBuilder:
             )
 
     def _ref_script_size(self):
+        # The ledger charges the reference-script fee for the scripts carried by ALL spent inputs and
+        # reference inputs, whether or not the transaction uses them.
         ref_script_size = 0
-        for s in self._reference_scripts:
+        seen: List[UTxO] = []
+        for utxo in list(self.inputs) + [
+            i for i in self.reference_inputs if isinstance(i, UTxO)
+        ]:
+            if utxo in seen:
+                continue
+            seen.append(utxo)
+            s = utxo.output.script
+            if s is None:
+                continue
             if isinstance(s, NativeScript):
                 ref_script_size += len(s.to_cbor())
             else:
